@@ -59,10 +59,22 @@ def run_impl(cases, exe=None, jobs=12, timeout=3600, env=None):
     return [c for ch in res for c in ch]
 
 
-def run_model(cases, timeout=3600, mode="seq"):
+def run_model(cases, timeout=3600, mode="seq", jobs=12):
+    """the Lean driver on every case; the cases are dealt round-robin to up to `jobs` driver processes (every case
+    starts from the initial state, so the split does not matter) and the transcripts are put back in order"""
     if not cases or not os.path.exists(C.FMODEL):
         return None
-    return _run_chunk(C.FMODEL, mode, cases, timeout)
+    n = max(1, min(jobs, len(cases) if len(cases) < 48 else len(cases) // 4))
+    if n == 1:
+        return _run_chunk(C.FMODEL, mode, cases, timeout)
+    idx = [list(range(k, len(cases), n)) for k in range(n)]
+    with cf.ThreadPoolExecutor(max_workers=n) as ex:
+        res = list(ex.map(lambda ix: _run_chunk(C.FMODEL, mode, [cases[i] for i in ix], timeout), idx))
+    out = [None] * len(cases)
+    for ix, rs in zip(idx, res):
+        for i, r in zip(ix, rs):
+            out[i] = r
+    return out
 
 
 def first_mismatch(impl, model):
